@@ -217,7 +217,7 @@ func absorb(peers []*scriptPeer, o string) {
 func genLoopDL(r *Rng, idx int, tier string, step func(op string) string) {
 	l := genLayout(r)
 	o := step(fmt.Sprintf("new pl=%d files=%s seq=%s cfg.AllowedFastSet=%d cfg.EndgameMaxDuplicateDownloads=%d cfg.MaxPeerAccept=%d",
-		l.pl, l.filesArg(), b01(r.Chance(30)), r.Pick(0, 0, 2), r.Pick(1, 2, 20), r.Pick(2, 3, 20, 20)))
+		l.pl, l.filesArg(), b01(r.Chance(30)), r.Pick(0, 2, 2, 10), r.Pick(1, 2, 20), r.Pick(2, 3, 20, 20)))
 	if !strings.HasPrefix(o, "ok") {
 		return
 	}
@@ -419,6 +419,20 @@ func genLoopDL(r *Rng, idx int, tier string, step func(op string) string) {
 		absorb(peers, step("gate kind=write on=0"))
 	}
 	step("obs")
+	// at the end one connected peer asks for the beginning of every piece, whatever its choke state: what was
+	// downloaded meanwhile may be served only to an unchoked peer or under a grant that was really announced
+	for _, p := range peers {
+		if p.closed {
+			continue
+		}
+		if r.Chance(50) {
+			absorb(peers, step(fmt.Sprintf("msg p=%d t=interested", p.k)))
+		}
+		for i := 0; i < l.numPieces(); i++ {
+			absorb(peers, step(fmt.Sprintf("msg p=%d t=request i=%d b=0 l=%d", p.k, i, r.Pick(1, 8, 16))))
+		}
+		break
+	}
 }
 
 func init() {
